@@ -27,6 +27,7 @@ type apiStep struct {
 	NilObj bool            `json:"nilobj"`
 	Name   string          `json:"name"`
 	Val    json.RawMessage `json:"val"`
+	Kind   json.RawMessage `json:"kind"`
 	Exp    *Expect         `json:"exp"`
 }
 
@@ -66,6 +67,11 @@ func replayApiRow(c *Check, row *Row) {
 		case "set":
 			o, _ := mustVal(s.Val).Object()
 			m.E.SetVariable(s.Name, o)
+		case "fn":
+			// AddFunction again under the same name: from now on the new function is the one which is called
+			for _, f := range parseFns(json.RawMessage(fmt.Sprintf("[[%q,%s]]", s.Name, string(s.Kind)))) {
+				m.addFunction(f)
+			}
 		case "get":
 			var got object.Object
 			func() {
@@ -255,7 +261,7 @@ func checkDriver(c *Check, cases []driverCase) {
 }
 
 func checkC20(c *Check) {
-	c.rule = "MC_Api: three scripts (using / only calling a host function; returning a variable) x 14 variable values of every type x 9 host-function kinds (fresh value of four types, void, returns its first argument, returns an array made of the argument slice it was given, the engine's own true / null) x optimise on/off x counter variable set or not x all single post-Prepare actions, (quick: a fifth of) all pairs and a sample of triples over 14 actions (Run / Execute on three objects incl. nil, GetVariable of four names, SetVariable of three names incl. null, a name shadowing a field, and null under a name shadowing a field); every action's observation (Execute value, Run verdict = truth of it and failing iff it fails, host calls with arguments in order, GetVariable, all variables) is compared with EFApi/EFSemantics; the built cmd/evalfilter binary is run on scripts x JSON documents x {-no-optimizer, -timeout} and must print what Execute gives in-process on the decoded document and exit 0; lex / parse / bytecode must terminate normally on every script incl. malformed ones; distinct = distinct action sequence or driver invocation"
+	c.rule = "MC_Api: three scripts (using / only calling a host function; returning a variable) x 14 variable values of every type x 9 host-function kinds (fresh value of four types, void, returns its first argument, returns an array made of the argument slice it was given, the engine's own true / null) x optimise on/off x counter variable set or not x all single post-Prepare actions, (quick: a fifth of) all pairs and a sample of triples over 16 actions (AddFunction again under the same name with another function; Run / Execute on three objects incl. nil, GetVariable of four names, SetVariable of three names incl. null, a name shadowing a field, and null under a name shadowing a field); every action's observation (Execute value, Run verdict = truth of it and failing iff it fails, host calls with arguments in order, GetVariable, all variables) is compared with EFApi/EFSemantics; the built cmd/evalfilter binary is run on scripts x JSON documents x {-no-optimizer, -timeout} and must print what Execute gives in-process on the decoded document and exit 0; lex / parse / bytecode must terminate normally on every script incl. malformed ones; distinct = distinct action sequence or driver invocation"
 	c.assumptions = []string{"API misuse (Run before Prepare, Dump after a failed Prepare) is not generated", "the driver's JSON result line and debug output are not compared"}
 	runRows(c, "MC_Api", stdCfg(c.Tier, "RunIsTruthOfExecute"), func(row *Row) {
 		replayApiRow(c, row)
